@@ -185,6 +185,29 @@ impl embedded_io::Read for EnvEioReader {
     }
 }
 
+/// plain readers delivering at most `1` bytes per call (no schedule exploration)
+struct Dribble<'a>(&'a [u8], usize);
+impl std::io::Read for Dribble<'_> {
+    fn read(&mut self, buf: &mut [u8]) -> std::io::Result<usize> {
+        let n = buf.len().min(self.0.len()).min(self.1);
+        buf[..n].copy_from_slice(&self.0[..n]);
+        self.0 = &self.0[n..];
+        Ok(n)
+    }
+}
+struct DribbleEio<'a>(&'a [u8], usize);
+impl embedded_io::ErrorType for DribbleEio<'_> {
+    type Error = embedded_io::ErrorKind;
+}
+impl embedded_io::Read for DribbleEio<'_> {
+    fn read(&mut self, buf: &mut [u8]) -> Result<usize, Self::Error> {
+        let n = buf.len().min(self.0.len()).min(self.1);
+        buf[..n].copy_from_slice(&self.0[..n]);
+        self.0 = &self.0[n..];
+        Ok(n)
+    }
+}
+
 // ---- explorer ----
 pub struct Explorer<'a> {
     pub bound: usize,
@@ -488,6 +511,50 @@ pub fn run(ctx: &Ctx) {
             }
         }
     });
+    // --- readers: a stream that CLAIMS more than the scratch can hold (corrupt / hostile length prefix):
+    // "a scratch buffer that is too small produces an error (never a panic)" and nothing is written outside it
+    let hostile = AtomicU64::new(0);
+    let claims: Vec<u128> = vec![5, 17, 1 << 14, 1 << 32, 1 << 47, 1 << 62, (1 << 63) - 1, 1 << 63, u64::MAX as u128 - (1 << 40), u64::MAX as u128 - 4096, u64::MAX as u128 - 15, u64::MAX as u128 - 1, u64::MAX as u128];
+    claims.par_iter().enumerate().for_each(|(ci, claim)| {
+        for shape in [Shape::Str, Shape::Bytes, Shape::Tuple(vec![Shape::U8, Shape::Str]), Shape::Seq(Box::new(Shape::Bytes))] {
+            for scratch_len in [0usize, 4, 16] {
+                for kind in [Kind::Std, Kind::Eio] {
+                    for chunk in [1usize, usize::MAX] {
+                        let mut stream: Vec<u8> = vec![];
+                        if let Shape::Tuple(_) = shape {
+                            stream.push(7);
+                        }
+                        if let Shape::Seq(_) = shape {
+                            stream.push(1);
+                        }
+                        stream.extend(vmodel::spec::varint(*claim));
+                        stream.extend_from_slice(&[0x61; 40]);
+                        hostile.fetch_add(1, Ordering::Relaxed);
+                        let case = json!({"transport": if kind == Kind::Std { "std::io::Read" } else { "embedded_io::Read" }, "shape": shape, "claimed_length": claim.to_string(), "scratch_len": scratch_len, "reads": if chunk == 1 { "1 byte at a time" } else { "whole" }});
+                        let r = with_arena(64, |a| {
+                            let mut cs = Vec::with_capacity(128);
+                            let _ = serde_json::to_writer(&mut cs, &case);
+                            set_case(&cs);
+                            let scratch = a.flush_end(scratch_len);
+                            trap(|| {
+                                crate::dynval::with_shape(&shape, || match kind {
+                                    Kind::Std => postcard::from_io::<Dyn, _>((Dribble(&stream, chunk), scratch)).map(|_| ()),
+                                    Kind::Eio => postcard::from_eio::<Dyn, _>((DribbleEio(&stream, chunk), scratch)).map(|_| ()),
+                                })
+                            })
+                        });
+                        match r {
+                            Err(p) => ctx.violation("io-reader-hostile-length-panic", format!("panic: {p}"), ci as u64, case),
+                            Ok(Ok(())) if *claim as usize > scratch_len => ctx.violation("io-reader-scratch-overrun", "Ok although the claimed length exceeds the scratch buffer".into(), ci as u64, case),
+                            _ => {}
+                        }
+                    }
+                }
+            }
+        }
+    });
+    ctx.class("reader-hostile-length-cases", hostile.load(Ordering::Relaxed));
+    execs.fetch_add(hostile.load(Ordering::Relaxed), Ordering::Relaxed);
     let n = execs.load(Ordering::Relaxed);
     ctx.add_evals(n);
     ctx.add_nontrivial(n);
